@@ -602,7 +602,8 @@ def _failstop(plan, scratch, screen, rows, stats, violation, log):
     if not obs_idx:
         return
     i = obs_idx[plan["poison_seed"] % len(obs_idx)]
-    value = -0.25 if "negative" in kind else float("nan")
+    # negative means below zero, however slightly: values that vanish in single precision or are subnormal included
+    value = [-0.25, -1e-60, -5e-324, -1e-300, -1e-9, -3.0, -2.5e-46][plan["poison_seed"] // 7 % 7] if "negative" in kind else float("nan")
     stats.fault("store.poison-observed:" + ("negative" if "negative" in kind else "nan"))
     if kind.startswith("cli-"):
         import h5py
